@@ -15,6 +15,23 @@ package notifier
 //   ok|fail/<am>/<k>  the fake Alertmanager <am> processes its k-th oldest pending request
 //                   successfully / the request fails
 //   stop            Manager.Stop (Run then stops every send loop, draining if configured)
+// Plans with Park (overlapping calls): Manager.Send is also explored as TWO events with other events
+// enumerated in between,
+//   psend/<k>/<am>  Manager.Send of k alerts is called on its own goroutine and is PAUSED inside the
+//                   notifier immediately before it hands the alerts to the send loop of <am> (the
+//                   harness holds that send loop's mutex as a gate; the notifier package is built
+//                   with lock waits that synctest regards as durable, so "Send is paused" and "an
+//                   operation is waiting for a lock" are quiescent states)
+//   resume          the gate is opened: the paused Send runs to completion, the system quiesces,
+//                   then the operation that was invoked meanwhile (if it had to wait) proceeds
+// While a Send is paused the menu is: ApplyConfig (every same/changed combination of the
+// Alertmanager configs), a discovery update that adds no Alertmanager, Stop (at most one of these),
+// and answers of Alertmanagers other than the gated one. Reference: an operation invoked while a
+// Send is in progress takes effect after that Send (both linearisations agree for every
+// Alertmanager that the operation keeps; for an Alertmanager that it stops, the paused alerts need
+// not be attempted by the drain - they are "optional").
+// Plans with K=2 have two Alertmanager configs (config-0 discovers am1, config-1 discovers am2),
+// so that ApplyConfig can change one set and keep (transfer the send loops of) the other.
 // The fake Alertmanager RECEIVES a batch when it processes the request (ok event): two requests
 // that are in flight to the same Alertmanager at the same time can be processed in either order,
 // as with real concurrent HTTP requests.
@@ -40,18 +57,21 @@ import (
 	"github.com/prometheus/prometheus/config"
 	"github.com/prometheus/prometheus/discovery/targetgroup"
 	"github.com/prometheus/prometheus/internal/verif/evloop"
+	"github.com/prometheus/prometheus/internal/verif/vsync"
 	"github.com/prometheus/prometheus/internal/verif/vx"
 	"github.com/prometheus/prometheus/model/labels"
 )
 
-const c46ConfigYAML = `
+const c46ConfigHead = `
 alerting:
   alert_relabel_configs:
   - source_labels: [sev]
     regex: drop
     action: drop
   alertmanagers:
-  - timeout: %s
+`
+
+const c46ConfigAM = `  - timeout: %s
     alert_relabel_configs:
     - source_labels: [sev]
       regex: amdrop
@@ -61,14 +81,45 @@ alerting:
 type c46Plan struct {
 	Q, B  int
 	Drain bool
+	K     int  // Alertmanager configs: 1 = config-0 discovers am1 and am2; 2 = config-0 discovers am1, config-1 discovers am2
+	Park  bool // paused-Send events (psend/resume)
 }
 
 var c46Plans = map[string]c46Plan{
-	"q2b1-drain":   {2, 1, true},
-	"q2b1-nodrain": {2, 1, false},
-	"q3b2-drain":   {3, 2, true},
-	"q3b2-nodrain": {3, 2, false},
-	"q1b1-drain":   {1, 1, true},
+	"q2b1-drain":          {2, 1, true, 1, false},
+	"q2b1-nodrain":        {2, 1, false, 1, false},
+	"q3b2-drain":          {3, 2, true, 1, false},
+	"q3b2-nodrain":        {3, 2, false, 1, false},
+	"q1b1-drain":          {1, 1, true, 1, false},
+	"k2park-q2b1-drain":   {2, 1, true, 2, true},
+	"k2park-q2b1-nodrain": {2, 1, false, 2, true},
+	"k1park-q2b1-drain":   {2, 1, true, 1, true},
+	"k1park-q3b2-nodrain": {3, 2, false, 1, true},
+}
+
+// cfgOf: which Alertmanager config discovers the Alertmanager.
+func (p c46Plan) cfgOf(am string) int {
+	if p.K == 2 && am == "2" {
+		return 1
+	}
+	return 0
+}
+
+// c46CfgMask: cfg/same, cfg/other (one config) or cfg/<s|o per config> -> bit c set = config c changes.
+func c46CfgMask(v string) int {
+	switch v {
+	case "same":
+		return 0
+	case "other":
+		return 1
+	}
+	m := 0
+	for i, c := range v {
+		if c == 'o' {
+			m |= 1 << i
+		}
+	}
+	return m
 }
 
 // ---------------------------------------------------------------------------
@@ -97,26 +148,40 @@ type c46AM struct {
 	received          []int
 	offered           map[int]bool // every alert ever offered to a loop of this Alertmanager
 	requested         map[int]bool // every alert that appeared in a request
+	optional          map[int]bool // queued alerts of a Send that overlapped with the operation stopping this loop: the drain need not attempt them
+	owed              []int        // alerts of the Send in progress (paused) that this Alertmanager's loop may or may not have been handed yet
+}
+
+// c46Parked: a Send that is in progress (paused inside the notifier).
+type c46Parked struct {
+	gate   string // paused immediately before the send loop of this Alertmanager
+	alerts []int  // its surviving alerts
+	op     string // the operation invoked while it is paused ("" = none yet); takes effect at resume
 }
 
 type c46Model struct {
-	plan     c46Plan
-	ams      map[string]*c46AM
-	stopReq  bool
-	cfgOther bool
-	next     int // next alert number
+	plan    c46Plan
+	ams     map[string]*c46AM
+	stopReq bool
+	cfgVar  int // bit c: Alertmanager config c is currently its second variant
+	next    int // next alert number
+	parked  *c46Parked
+	// alerts of the Send that overlaps with the operation being applied (see stopLoop)
+	overlapping []int
 }
 
 func c46NewModel(p c46Plan) *c46Model {
 	m := &c46Model{plan: p, ams: map[string]*c46AM{}}
 	for _, a := range []string{"1", "2"} {
-		m.ams[a] = &c46AM{offered: map[int]bool{}, requested: map[int]bool{}}
+		m.ams[a] = &c46AM{offered: map[int]bool{}, requested: map[int]bool{}, optional: map[int]bool{}}
 	}
 	return m
 }
 
 // offer: the surviving alerts of one Send, in order. Queue overflow loses the OLDEST alerts.
-func (m *c46Model) offer(alerts []int) {
+// paused: the Send stays in progress; when each Alertmanager's loop is handed the alerts (at the
+// latest when the Send returns) is not known to the reference: they are owed.
+func (m *c46Model) offer(alerts []int, paused bool) {
 	if m.stopReq {
 		return
 	}
@@ -127,13 +192,25 @@ func (m *c46Model) offer(alerts []int) {
 		for _, x := range alerts {
 			a.offered[x] = true
 		}
-		all := append(append([]int{}, a.queue...), alerts...)
-		if d := len(all) - m.plan.Q; d > 0 {
-			a.lostN += d
-			all = all[d:]
+		a.owed = append([]int{}, alerts...)
+		if !paused {
+			m.handOver(a)
 		}
-		a.queue = all
 	}
+}
+
+// handOver: the loop is handed the owed alerts now.
+func (m *c46Model) handOver(a *c46AM) {
+	if len(a.owed) == 0 {
+		return
+	}
+	all := append(append([]int{}, a.queue...), a.owed...)
+	if d := len(all) - m.plan.Q; d > 0 {
+		a.lostN += d
+		all = all[d:]
+	}
+	a.queue = all
+	a.owed = nil
 }
 
 // stopLoop: the Alertmanager leaves the set or the notifier stops.
@@ -144,6 +221,11 @@ func (m *c46Model) stopLoop(a *c46AM) {
 	a.live = false
 	if m.plan.Drain {
 		a.draining = true // every queued alert must be attempted before the stopping operation returns
+		// ... except those of a Send that was still in progress when the stopping operation was
+		// invoked: ordering the operation before that Send is just as legitimate
+		for _, x := range m.overlapping {
+			a.optional[x] = true
+		}
 	} else {
 		a.queue = nil // lost: stopped without draining
 	}
@@ -166,6 +248,35 @@ func (m *c46Model) setAMs(set string) {
 	}
 }
 
+// applyOp: reference effect of a set-changing operation / Stop.
+func (m *c46Model) applyOp(f []string) {
+	switch f[0] {
+	case "sd":
+		set := f[1]
+		if set == "0" {
+			set = ""
+		}
+		m.setAMs(set)
+	case "cfg":
+		// a changed Alertmanager config: the loops of its old set are stopped, the new set has no
+		// Alertmanagers until the next discovery update; an unchanged config keeps its loops
+		mask := c46CfgMask(f[1])
+		for _, name := range []string{"1", "2"} {
+			if mask>>m.plan.cfgOf(name)&1 == 1 {
+				m.stopLoop(m.ams[name])
+			}
+		}
+		m.cfgVar ^= mask
+	case "stop":
+		m.stopReq = true
+		for _, name := range []string{"1", "2"} {
+			m.stopLoop(m.ams[name])
+		}
+	default:
+		panic("c46: applyOp " + f[0])
+	}
+}
+
 // ---------------------------------------------------------------------------
 // the world
 // ---------------------------------------------------------------------------
@@ -176,11 +287,13 @@ type c46World struct {
 	plan c46Plan
 	m    *Manager
 	reg  *prometheus.Registry
-	conf [2]*config.Config
+	conf []*config.Config // index = cfgVar bit mask
 
 	tsets   chan map[string][]*targetgroup.Group
 	runDone bool
 	applyIn int // ApplyConfig calls that have not returned
+	sendIn  int // (paused) Send calls that have not returned
+	park    *c46Park
 
 	mu    sync.Mutex
 	mdl   *c46Model
@@ -188,18 +301,27 @@ type c46World struct {
 	soft  []*vx.Fail // known-finding class: reported, exploration continues
 	hist  []string
 	// coverage features
-	sawOverflow, sawOverlap bool
+	sawOverflow, sawOverlap, sawPark, sawOpInPark, sawOpWaited bool
+}
+
+// c46Park: the gate that pauses a Send.
+type c46Park struct {
+	sl *sendLoop // its mutex is held by the harness
 }
 
 // The two configurations are parsed once and shared read-only by all worlds (ApplyConfig only
 // writes a relabel config's NameValidationScheme when it is unset; it is set here).
 var (
 	c46ConfOnce sync.Once
-	c46Conf     [2]*config.Config
+	c46Conf     [3][]*config.Config
 )
 
-func c46LoadConfig(timeout string) *config.Config {
-	c, err := config.Load(fmt.Sprintf(c46ConfigYAML, timeout), nil)
+func c46LoadConfig(timeouts ...string) *config.Config {
+	y := c46ConfigHead
+	for _, t := range timeouts {
+		y += fmt.Sprintf(c46ConfigAM, t)
+	}
+	c, err := config.Load(y, nil)
 	if err != nil {
 		panic("c46: config: " + err.Error())
 	}
@@ -216,9 +338,12 @@ func c46LoadConfig(timeout string) *config.Config {
 	return c
 }
 
-func c46Configs() [2]*config.Config {
-	c46ConfOnce.Do(func() { c46Conf[0], c46Conf[1] = c46LoadConfig("10s"), c46LoadConfig("11s") })
-	return c46Conf
+func c46Configs(k int) []*config.Config {
+	c46ConfOnce.Do(func() {
+		c46Conf[1] = []*config.Config{c46LoadConfig("10s"), c46LoadConfig("11s")}
+		c46Conf[2] = []*config.Config{c46LoadConfig("10s", "20s"), c46LoadConfig("11s", "20s"), c46LoadConfig("10s", "21s"), c46LoadConfig("11s", "21s")}
+	})
+	return c46Conf[k]
 }
 
 func c46NewWorld(r *vx.Run, name string) *c46World {
@@ -228,7 +353,7 @@ func c46NewWorld(r *vx.Run, name string) *c46World {
 	}
 	w := &c46World{r: r, name: name, plan: p, mdl: c46NewModel(p), tsets: make(chan map[string][]*targetgroup.Group)}
 	w.reg = prometheus.NewRegistry()
-	w.conf = c46Configs()
+	w.conf = c46Configs(p.K)
 	w.m = NewManager(&Options{QueueCapacity: p.Q, MaxBatchSize: p.B, DrainOnShutdown: p.Drain, Do: w.do, Registerer: w.reg}, model.UTF8Validation, nil)
 	if err := w.m.ApplyConfig(w.conf[0]); err != nil {
 		panic("c46: ApplyConfig: " + err.Error())
@@ -239,18 +364,29 @@ func c46NewWorld(r *vx.Run, name string) *c46World {
 		w.runDone = true
 		w.mu.Unlock()
 	}()
-	// initial state: Alertmanager am1 discovered (saves one event of depth in every history)
-	w.mdl.setAMs("1")
-	w.tsets <- c46TargetSet("1")
+	// initial state: Alertmanager am1 discovered (saves one event of depth in every history); with two
+	// Alertmanager configs both are discovered, one by each config
+	init := "1"
+	if p.K == 2 {
+		init = "12"
+	}
+	w.mdl.setAMs(init)
+	w.tsets <- w.targetSet(init)
 	return w
 }
 
-func c46TargetSet(set string) map[string][]*targetgroup.Group {
-	tg := &targetgroup.Group{Source: "sd"}
-	for _, c := range set {
-		tg.Targets = append(tg.Targets, model.LabelSet{model.AddressLabel: model.LabelValue(fmt.Sprintf("am%c:9093", c))})
+func (w *c46World) targetSet(set string) map[string][]*targetgroup.Group {
+	out := map[string][]*targetgroup.Group{}
+	for c := 0; c < w.plan.K; c++ {
+		tg := &targetgroup.Group{Source: "sd"}
+		for _, ch := range set {
+			if w.plan.cfgOf(string(ch)) == c {
+				tg.Targets = append(tg.Targets, model.LabelSet{model.AddressLabel: model.LabelValue(fmt.Sprintf("am%c:9093", ch))})
+			}
+		}
+		out[fmt.Sprintf("config-%d", c)] = []*targetgroup.Group{tg}
 	}
-	return map[string][]*targetgroup.Group{"config-0": {tg}}
+	return out
 }
 
 // do is Options.Do: the request stays in flight until an ok/fail event answers it.
@@ -328,6 +464,11 @@ func (w *c46World) arrive(rq *c46Req) {
 	}
 	// the batch must be the oldest queued alerts, in order: anything else skips, repeats or reorders
 	n := len(rq.alerts)
+	if (n > len(a.queue) || fmt.Sprint(a.queue[:n]) != fmt.Sprint(rq.alerts)) && len(a.owed) > 0 {
+		// not the head of the queue as it was before the Send in progress: then the loop must have
+		// been handed that Send's alerts already
+		w.mdl.handOver(a)
+	}
 	if n > len(a.queue) || fmt.Sprint(a.queue[:n]) != fmt.Sprint(rq.alerts) {
 		w.fails = append(w.fails, vx.Failf("batch-not-oldest-queued", "am%s: request carries %v, the queue of surviving alerts is %v", rq.am, rq.alerts, a.queue))
 		for _, x := range rq.alerts {
@@ -395,17 +536,71 @@ func (w *c46World) busy() bool {
 	return true
 }
 
+// quiet: no call into the notifier is in progress (none paused by the harness, none waiting in a
+// drain) - the only states in which the harness itself takes the notifier's locks.
+func (w *c46World) quiet() bool {
+	return w.park == nil && w.sendIn == 0 && w.applyIn == 0 && !w.busy()
+}
+
+func (w *c46World) cfgOps() []string {
+	if w.plan.K == 2 {
+		return []string{"cfg/ss", "cfg/os", "cfg/so", "cfg/oo"}
+	}
+	return []string{"cfg/same", "cfg/other"}
+}
+
 func (w *c46World) Ops() []string {
 	w.mu.Lock()
 	defer w.mu.Unlock()
 	var ops []string
-	// Everything that needs Manager.mtx is only injected while the lock is free: a goroutine
-	// blocked on a mutex is not durably blocked, the bubble could never become quiescent. (While
+	if pk := w.mdl.parked; pk != nil {
+		// a Send is paused: open the gate, or invoke ONE operation that overlaps with it (a second
+		// one would only queue behind the first), or let another Alertmanager answer
+		ops = append(ops, "resume")
+		if pk.op == "" {
+			ops = append(ops, w.cfgOps()...)
+			for _, set := range []string{"1", "12", "2", "0"} {
+				adds := false
+				for _, name := range []string{"1", "2"} {
+					if strings.Contains(set, name) && !w.mdl.ams[name].live {
+						adds = true // both linearisations are legitimate and differ for the new loop: not explored
+					}
+				}
+				if !adds {
+					ops = append(ops, "sd/"+set)
+				}
+			}
+			ops = append(ops, "stop")
+		}
+		for _, name := range []string{"1", "2"} {
+			if name == pk.gate {
+				continue // its send loop may be waiting at the gate as well
+			}
+			for k := range w.mdl.ams[name].pending {
+				if k < 2 {
+					ops = append(ops, fmt.Sprintf("ok/%s/%d", name, k), fmt.Sprintf("fail/%s/%d", name, k))
+				}
+			}
+		}
+		return ops
+	}
+	// Everything that needs Manager.mtx is only injected while the lock is free. (While
 	// the lock is held, its holder is blocked in Do inside a drain; the real callers would simply
 	// wait, which is the same as being ordered after the drain.)
-	if !w.busy() && w.applyIn == 0 {
+	if w.quiet() {
 		if !w.mdl.stopReq {
-			ops = append(ops, "send/1", "send/3", "send/d", "sd/1", "sd/12", "sd/2", "sd/0", "cfg/same", "cfg/other", "stop")
+			ops = append(ops, "send/1", "send/3", "send/d", "sd/1", "sd/12", "sd/2", "sd/0")
+			ops = append(ops, w.cfgOps()...)
+			ops = append(ops, "stop")
+			if w.plan.Park {
+				for _, k := range []string{"1", "3"} {
+					for _, name := range []string{"1", "2"} {
+						if w.mdl.ams[name].live {
+							ops = append(ops, "psend/"+k+"/"+name)
+						}
+					}
+				}
+			}
 		} else {
 			ops = append(ops, "send/1")
 		}
@@ -436,7 +631,7 @@ func (w *c46World) Apply(op string) {
 	w.soft = nil
 	f := strings.Split(op, "/")
 	switch f[0] {
-	case "send":
+	case "send", "psend":
 		var alerts []*Alert
 		var surviving []int
 		add := func(sev string) {
@@ -462,62 +657,122 @@ func (w *c46World) Apply(op string) {
 		for _, a := range w.mdl.ams {
 			before += a.lostN
 		}
-		w.mdl.offer(surviving) // model first: the loops may call Do before Send returns
+		w.mdl.offer(surviving, f[0] == "psend") // model first: the loops may call Do before Send returns
 		for _, a := range w.mdl.ams {
 			before -= a.lostN
 		}
 		if before != 0 {
 			w.sawOverflow = true
 		}
-		w.mu.Unlock()
-		w.m.Send(alerts...)
-	case "sd":
-		set := f[1]
-		if set == "0" {
-			set = ""
+		if f[0] == "send" {
+			w.mu.Unlock()
+			w.m.Send(alerts...)
+			break
 		}
-		w.mdl.setAMs(set)
-		w.mu.Unlock()
-		w.tsets <- c46TargetSet(set)
-	case "cfg":
-		i := 0
-		if w.mdl.cfgOther != (f[1] == "other") {
-			i = 1
+		// psend: close the gate in front of the send loop of Alertmanager f[2], then call Send on
+		// its own goroutine; it stops at the gate (after whatever it does before reaching it)
+		sl := w.findLoop(f[2])
+		if sl == nil {
+			w.mu.Unlock()
+			panic("c46: no send loop to pause at: " + op)
 		}
-		if f[1] == "other" {
-			// a different Alertmanager config: the old set's loops are stopped, the new set has no
-			// Alertmanagers until the next discovery update
-			w.mdl.cfgOther = !w.mdl.cfgOther
-			w.mdl.setAMs("")
-		}
-		w.applyIn++
+		sl.mtx.Lock()
+		w.park = &c46Park{sl: sl}
+		w.mdl.parked = &c46Parked{gate: f[2], alerts: surviving}
+		w.sawPark = true
+		w.sendIn++
 		w.mu.Unlock()
 		go func() {
-			if err := w.m.ApplyConfig(w.conf[i]); err != nil {
-				panic("c46: ApplyConfig: " + err.Error())
-			}
+			w.m.Send(alerts...)
 			w.mu.Lock()
-			w.applyIn--
+			w.sendIn--
 			w.mu.Unlock()
 		}()
+	case "resume":
+		pk, gate := w.mdl.parked, w.park
+		if pk == nil {
+			w.mu.Unlock()
+			panic("c46: resume without a paused Send")
+		}
+		// An operation invoked meanwhile that had to wait for the Send (it needs Manager.mtx, which
+		// the Send holds for reading) is kept waiting a little longer by a second read lock, so that
+		// the step is two quiescent phases (Send completes; the operation runs) and not a race
+		// between the resumed send loops and the operation. If the operation did NOT have to wait,
+		// it holds or has already released the lock and nothing is delayed.
+		held := w.m.mtx.TryRLock()
+		if strings.HasPrefix(pk.op, "cfg") && w.applyIn > 0 {
+			w.sawOpWaited = true // the overlapping ApplyConfig has not returned while the Send is paused
+		}
+		w.mu.Unlock()
+		gate.sl.mtx.Unlock()
+		synctest.Wait()
+		w.mu.Lock()
+		w.park, w.mdl.parked = nil, nil
+		for _, name := range []string{"1", "2"} {
+			a := w.mdl.ams[name]
+			l := a.lostN
+			w.mdl.handOver(a) // the Send has returned
+			if a.lostN != l {
+				w.sawOverflow = true
+			}
+		}
+		if pk.op != "" {
+			w.mdl.overlapping = pk.alerts
+			w.mdl.applyOp(strings.Split(pk.op, "/"))
+			w.mdl.overlapping = nil
+		}
+		w.mu.Unlock()
+		if held {
+			w.m.mtx.RUnlock()
+		}
+	case "sd", "cfg", "stop":
+		cfgIdx := 0
+		if f[0] == "cfg" {
+			cfgIdx = w.mdl.cfgVar ^ c46CfgMask(f[1])
+			w.applyIn++
+		}
+		if pk := w.mdl.parked; pk != nil {
+			// invoked while a Send is in progress: takes effect (in the reference) after that Send
+			pk.op = op
+			w.sawOpInPark = true
+			if f[0] == "stop" {
+				w.mdl.stopReq = true // Stop itself returns at once; no further Send is accepted
+			}
+		} else {
+			w.mdl.applyOp(f) // model first: the stopping operation may call Do before it returns
+		}
+		w.mu.Unlock()
+		switch f[0] {
+		case "sd":
+			set := f[1]
+			if set == "0" {
+				set = ""
+			}
+			w.tsets <- w.targetSet(set)
+		case "cfg":
+			go func() {
+				if err := w.m.ApplyConfig(w.conf[cfgIdx]); err != nil {
+					panic("c46: ApplyConfig: " + err.Error())
+				}
+				w.mu.Lock()
+				w.applyIn--
+				w.mu.Unlock()
+			}()
+		case "stop":
+			w.m.Stop()
+		}
 	case "ok", "fail":
 		var k int
 		fmt.Sscan(f[2], &k)
 		a := w.mdl.ams[f[1]]
 		if k >= len(a.pending) {
+			w.mu.Unlock()
 			panic("c46: no such pending request: " + op)
 		}
 		rq := a.pending[k]
 		w.answer(rq, f[0] == "ok")
 		w.mu.Unlock()
 		rq.reply <- f[0] == "ok"
-	case "stop":
-		w.mdl.stopReq = true
-		for _, a := range w.mdl.ams {
-			w.mdl.stopLoop(a)
-		}
-		w.mu.Unlock()
-		w.m.Stop()
 	default:
 		w.mu.Unlock()
 		panic("c46: unknown op " + op)
@@ -560,6 +815,21 @@ func (w *c46World) implLoops() map[string][]int {
 		ams.mtx.RUnlock()
 	}
 	return out
+}
+
+// findLoop: the real send loop of an Alertmanager (only called in quiet states).
+func (w *c46World) findLoop(am string) *sendLoop {
+	w.m.mtx.RLock()
+	defer w.m.mtx.RUnlock()
+	for _, ams := range w.m.alertmanagers {
+		ams.mtx.RLock()
+		sl := ams.sendLoops[c46URL(am)]
+		ams.mtx.RUnlock()
+		if sl != nil {
+			return sl
+		}
+	}
+	return nil
 }
 
 // stateString renders model + real queues. canon=true is the de-duplication key:
@@ -614,12 +884,28 @@ func (w *c46World) stateString(canon bool, impl map[string][]int) string {
 			ps = append(ps, fmt.Sprintf("%v/drain=%v/old=%v", renl(p.alerts), p.drain, p.gen < a.gens))
 		}
 		fmt.Fprintf(&sb, "am%s{live=%v draining=%v gens=%d queue=%v pending=%v maxrecv=%d/%v/old=%v", name, a.live, a.draining, min(a.gens, 2), renl(a.queue), ps, ren(a.maxReceived), a.maxReceivedDrain, a.maxReceivedGen < a.gens)
+		if len(a.owed) > 0 {
+			fmt.Fprintf(&sb, " owed=%d", len(a.owed))
+		}
+		if len(a.optional) > 0 {
+			var o []int
+			for _, x := range a.queue {
+				if a.optional[x] {
+					o = append(o, x)
+				}
+			}
+			fmt.Fprintf(&sb, " optional=%v", renl(o))
+		}
 		if !canon {
 			fmt.Fprintf(&sb, " ok=%d fail=%d lost=%d received=%v", a.okN, a.failN, a.lostN, a.received)
 		}
 		sb.WriteString("} ")
 	}
-	fmt.Fprintf(&sb, "stop=%v cfgOther=%v", w.mdl.stopReq, w.mdl.cfgOther)
+	fmt.Fprintf(&sb, "stop=%v cfgOther=%v", w.mdl.stopReq, w.mdl.cfgVar)
+	if pk := w.mdl.parked; pk != nil {
+		// the paused alerts are the newest ones of every queue they are still in
+		fmt.Fprintf(&sb, " paused{before am%s, %d alerts, meanwhile %q}", pk.gate, len(pk.alerts), pk.op)
+	}
 	if !canon {
 		fmt.Fprintf(&sb, " next=%d", w.mdl.next)
 	}
@@ -631,23 +917,32 @@ func (w *c46World) stateString(canon bool, impl map[string][]int) string {
 		}
 		is = strings.Join(l, ",")
 	}
-	return fmt.Sprintf("%s | impl %s applyIn=%d runDone=%v nfails=%d", sb.String(), is, w.applyIn, w.runDone, len(w.fails))
+	return fmt.Sprintf("%s | impl %s applyIn=%d sendIn=%d runDone=%v nfails=%d", sb.String(), is, w.applyIn, w.sendIn, w.runDone, len(w.fails))
 }
 
 // settle: once every stopping operation has returned (Manager.mtx free, no ApplyConfig in
 // progress), a draining stop must have attempted every queued alert.
 func (w *c46World) settle() {
-	if w.busy() || w.applyIn != 0 {
+	if !w.quiet() {
 		return
 	}
 	for _, name := range []string{"1", "2"} {
 		a := w.mdl.ams[name]
 		if a.draining {
-			if len(a.queue) > 0 {
-				w.fails = append(w.fails, vx.Failf("drain-incomplete", "am%s: DrainOnShutdown is set, the stopping operation returned, but %v were never attempted", name, a.queue))
-				a.queue = nil
+			var left []int
+			for _, x := range a.queue {
+				if !a.optional[x] {
+					left = append(left, x)
+				}
 			}
+			if len(left) > 0 {
+				w.fails = append(w.fails, vx.Failf("drain-incomplete", "am%s: DrainOnShutdown is set, the stopping operation returned, but %v were never attempted", name, left))
+			}
+			a.queue = nil
 			a.draining = false
+		}
+		if !a.live && len(a.optional) > 0 {
+			a.optional = map[int]bool{}
 		}
 	}
 }
@@ -657,7 +952,7 @@ func (w *c46World) render(canon bool) string {
 	defer w.mu.Unlock()
 	w.settle()
 	var impl map[string][]int
-	if !w.busy() {
+	if w.park == nil && w.sendIn == 0 && !w.busy() {
 		impl = w.implLoops()
 	}
 	return w.stateString(canon, impl)
@@ -679,8 +974,7 @@ func (w *c46World) Check() *vx.Fail {
 	if len(w.fails) > 0 {
 		return w.fails[0]
 	}
-	busy := w.busy()
-	if !busy && w.applyIn == 0 {
+	if w.quiet() {
 		if w.mdl.stopReq && !w.runDone {
 			return vx.Failf("run-did-not-return", "Stop was called, nothing is in progress, but Run has not returned")
 		}
@@ -724,12 +1018,31 @@ func (w *c46World) Check() *vx.Fail {
 		if soft {
 			w.r.Count("histories_with_swapped_reception", 1)
 		}
+		if w.sawPark {
+			w.r.Count("histories_with_paused_send", 1)
+		}
+		if w.sawOpInPark {
+			w.r.Count("histories_with_operation_invoked_during_paused_send", 1)
+		}
+		if w.sawOpWaited {
+			w.r.Count("histories_where_applyconfig_waited_for_paused_send", 1)
+		}
 	}
 	return nil
 }
 
 func (w *c46World) Close() {
 	// release everything: fail pending requests until nothing is in flight, stop, repeat
+	w.mu.Lock()
+	if w.park != nil {
+		sl := w.park.sl
+		w.park, w.mdl.parked = nil, nil
+		w.mu.Unlock()
+		sl.mtx.Unlock()
+		synctest.Wait()
+	} else {
+		w.mu.Unlock()
+	}
 	for i := 0; i < 64; i++ {
 		w.mu.Lock()
 		var ps []*c46Req
@@ -737,7 +1050,7 @@ func (w *c46World) Close() {
 			ps = append(ps, a.pending...)
 			a.pending = nil
 		}
-		done := w.runDone && w.applyIn == 0
+		done := w.runDone && w.applyIn == 0 && w.sendIn == 0
 		w.mu.Unlock()
 		for _, p := range ps {
 			p.reply <- false
@@ -827,6 +1140,23 @@ func (s *c46Sabotaged) Apply(op string) {
 	s.c46World.Apply(op)
 }
 
+// c46SabotagedPark forgets that a Send in progress still owes its alerts to the Alertmanagers it
+// has not reached yet when an operation overlaps with it (self-test only).
+type c46SabotagedPark struct{ *c46World }
+
+func (s *c46SabotagedPark) Apply(op string) {
+	if op == "resume" {
+		s.mu.Lock()
+		if pk := s.mdl.parked; pk != nil && pk.op != "" {
+			for _, a := range s.mdl.ams {
+				a.owed = nil
+			}
+		}
+		s.mu.Unlock()
+	}
+	s.c46World.Apply(op)
+}
+
 func c46SelfTest(t *testing.T, r *vx.Run, eng *evloop.Engine) {
 	// a fixed history with overflow, failure, two Alertmanagers; the oracle must accept it ...
 	ops := []string{"sd/12", "send/1", "send/3", "ok/1/0", "fail/2/0", "send/d", "ok/1/0"} // (am1 is already in the set initially)
@@ -838,11 +1168,28 @@ func c46SelfTest(t *testing.T, r *vx.Run, eng *evloop.Engine) {
 	if f := eng.Replay(func() evloop.World { return &c46Sabotaged{c46NewWorld(nil, "q2b1-nodrain")} }, ops); f == nil {
 		t.Fatalf("self-test: oracle accepted a reference without queue overflow")
 	}
+	// the notifier package must be built with synctest-visible lock waits (spec: flavour sched,
+	// rewrite_pkgs notifier): a paused Send and an operation waiting for it block on mutexes
+	var mgr Manager
+	if _, ok := any(&mgr.mtx).(*vsync.RWMutex); !ok {
+		t.Fatalf("self-test: notifier.Manager.mtx is %T, not the bubble-aware vsync.RWMutex (check spec flavour/rewrite_pkgs)", &mgr.mtx)
+	}
+	// a Send paused before am1's loop, overlapped by an ApplyConfig that changes config-0 and keeps
+	// config-1, then resumed: accepted on a correct notifier, and ...
+	pops := []string{"psend/1/1", "cfg/os", "resume"}
+	if f := eng.Replay(func() evloop.World { return c46NewWorld(nil, "k2park-q2b1-nodrain") }, pops); f != nil {
+		// not reported from here: this history is inside the explored space of every tier, the
+		// exploration reports it (with the shortest history of its signature)
+		t.Logf("self-test: history %v is rejected on this tree (%s); sabotage test skipped", pops, f.Signature)
+	} else if f := eng.Replay(func() evloop.World { return &c46SabotagedPark{c46NewWorld(nil, "k2park-q2b1-nodrain")} }, pops); f == nil {
+		// ... the oracle must complain when the reference drops the alerts of the overlapped Send
+		t.Fatalf("self-test: oracle accepted a reference that loses the alerts of a Send overlapped by ApplyConfig")
+	}
 	// model: overflow drops oldest
-	m := c46NewModel(c46Plan{2, 1, true})
+	m := c46NewModel(c46Plan{2, 1, true, 1, false})
 	m.setAMs("1")
-	m.offer([]int{1})
-	m.offer([]int{2, 3, 4})
+	m.offer([]int{1}, false)
+	m.offer([]int{2, 3, 4}, false)
 	if a := m.ams["1"]; fmt.Sprint(a.queue) != "[3 4]" || a.lostN != 2 {
 		t.Fatalf("self-test: model overflow wrong: %v lost %d", a.queue, a.lostN)
 	}
@@ -851,6 +1198,7 @@ func c46SelfTest(t *testing.T, r *vx.Run, eng *evloop.Engine) {
 func TestVerifC46(t *testing.T) {
 	r := vx.Start(t, "C46", "model_checking")
 	defer r.Finish()
+	vsync.BubbleMode.Store(true)
 	eng := &evloop.Engine{T: t, GuardFirst: 50}
 	if r.Replay != "" {
 		var rp struct {
@@ -870,8 +1218,8 @@ func TestVerifC46(t *testing.T) {
 		depth int
 	}
 	plans := vx.Pick(r,
-		[]plan{{"q2b1-drain", 6}, {"q2b1-nodrain", 6}},
-		[]plan{{"q2b1-nodrain", 8}, {"q3b2-drain", 7}, {"q3b2-nodrain", 7}, {"q1b1-drain", 7}, {"q2b1-drain", 9}})
+		[]plan{{"k2park-q2b1-nodrain", 4}, {"k2park-q2b1-drain", 4}, {"q2b1-drain", 6}, {"q2b1-nodrain", 6}},
+		[]plan{{"k2park-q2b1-nodrain", 6}, {"k2park-q2b1-drain", 6}, {"k1park-q2b1-drain", 6}, {"k1park-q3b2-nodrain", 6}, {"q2b1-nodrain", 8}, {"q3b2-drain", 7}, {"q3b2-nodrain", 7}, {"q1b1-drain", 7}, {"q2b1-drain", 9}})
 	if v := os.Getenv("VERIF_C46_PLAN"); v != "" { // experiments only, e.g. "q2b1-drain:6"
 		plans = nil
 		for _, p := range strings.Split(v, ",") {
@@ -908,12 +1256,20 @@ func TestVerifC46(t *testing.T) {
 		pn = append(pn, fmt.Sprintf("%s(queue %d, batch %d, drain %v)", p.name, c46Plans[p.name].Q, c46Plans[p.name].B, c46Plans[p.name].Drain))
 	}
 	sort.Strings(pn)
-	r.Set("alphabet", map[string]any{"plans": pn, "events": []string{"send/1", "send/3", "send/d", "sd/1", "sd/12", "sd/2", "sd/0", "cfg/same", "cfg/other", "stop", "ok/<am>/<k<2>", "fail/<am>/<k<2>"}})
-	r.Set("rule", "every ordering of <= depth events (Send of 1 / 3 / relabel-filtered alerts, Alertmanager set change by discovery update or ApplyConfig, fake Alertmanager processes or fails its oldest or second-oldest pending request, Stop) on a fresh real notifier.Manager in a synctest bubble, de-duplicated on (per Alertmanager: loop live/draining, queue, requests in flight, delivered/failed/lost counts, highest alert received; stop requested; config; real queues); oracle after every transition: batches <= max and equal to the oldest queued alerts, received sequence in send order, real queue == reference queue (oldest dropped on overflow), sent/errors/dropped metrics == delivered/failed/failed+lost, with draining nothing left unattempted when the stopping operation has returned")
+	r.Set("alphabet", map[string]any{"plans": pn, "events": []string{"send/1", "send/3", "send/d", "sd/1", "sd/12", "sd/2", "sd/0", "cfg/same", "cfg/other", "cfg/<s|o><s|o> (two Alertmanager configs)", "stop", "ok/<am>/<k<2>", "fail/<am>/<k<2>", "psend/<1|3>/<am> (Send paused before the send loop of a live Alertmanager; park plans)", "resume"}})
+	r.Set("rule", "every ordering of <= depth events (Send of 1 / 3 / relabel-filtered alerts, Alertmanager set change by discovery update or ApplyConfig, fake Alertmanager processes or fails its oldest or second-oldest pending request, Stop; in the park plans also: Send split into psend (paused inside the notifier before it hands the alerts to the send loop of a chosen Alertmanager) and resume, with one ApplyConfig / non-adding discovery update / Stop and answers of the other Alertmanager enumerated in between) on a fresh real notifier.Manager in a synctest bubble, de-duplicated on (per Alertmanager: loop live/draining, queue, requests in flight, delivered/failed/lost counts, highest alert received; stop requested; config; real queues); oracle after every transition: batches <= max and equal to the oldest queued alerts, received sequence in send order, real queue == reference queue (oldest dropped on overflow), sent/errors/dropped metrics == delivered/failed/failed+lost, with draining nothing left unattempted when the stopping operation has returned")
 	r.Assume("between two quiescent points the order of runnable goroutines, select tie-breaks and map iteration are the Go runtime's; each event is injected only when every goroutine is durably blocked; events needing Manager.mtx are not injected while a drain holds it (they would simply wait)")
 	r.Assume("a fake Alertmanager receives a batch when it processes the request; two requests in flight to the same Alertmanager may be processed in either order (as concurrent HTTP requests can be)")
+	r.Assume("park plans: the notifier package is built with the vsync lock shims in bubble mode (a goroutine waiting for a notifier mutex is durably blocked for synctest) and the deterministic-runtime overlay (fixed map iteration / select order); the pause point is the mutex of a send loop held by the harness; an operation invoked while a Send is paused takes effect, in the reference, after that Send (for an Alertmanager it stops, the paused alerts need not be attempted by the drain); on resume an operation that had to wait for Manager.mtx is released only after the resumed Send has quiesced; operations that would ADD an Alertmanager while a Send is paused, a second paused Send, and answers of the gated Alertmanager while paused are not explored")
 	r.Assume("loss counters are compared with the metrics only for the first send loop of an Alertmanager URL (stop() deletes the label values, so the count of alerts dropped by a non-draining stop is not observable)")
 	if r.Violations() == 0 && (r.Get("outcome_kinds") < 2 || r.Get("histories_with_queue_overflow") == 0) {
 		t.Fatalf("vacuous run: %d distinct outcomes, %d histories with overflow", r.Get("outcome_kinds"), r.Get("histories_with_queue_overflow"))
+	}
+	parkPlans := false
+	for _, p := range plans {
+		parkPlans = parkPlans || c46Plans[p.name].Park
+	}
+	if r.Violations() == 0 && parkPlans && r.Get("histories_with_operation_invoked_during_paused_send") == 0 {
+		t.Fatalf("vacuous run: no history in which an operation overlapped with a paused Send")
 	}
 }
